@@ -21,6 +21,7 @@ ATTRS = ['x', 'y', 'z']
 def gen_case(rnd):
     k = rnd.randint(2, 3)
     names = ATTRS[:k]
+    if rnd.random() < .25: names = names[:-1] + ['result']      # an attribute that happens to be called like the result slot of ensure validators
     cls_attrs = {n: rnd.randint(0, 3) for n in names if rnd.random() < .6}
     init = [[n, rnd.randint(0, 5)] for n in names if n not in cls_attrs or rnd.random() < .5]
     invs = []
@@ -93,7 +94,10 @@ def monitor(c, r):
     steps = obs.split('|')
     out = []
     if not steps[0].startswith('new ok'):
-        # construction itself was rejected: every prefix of the init assignments must indeed break some invariant (or be unevaluable)
+        # construction itself was rejected: by the violation error, or -- when an invariant cannot be evaluated on the half-built object --
+        # by the validator's own exception; with every attribute present from the first assignment on, the latter must not happen
+        if steps[0].startswith('new exc') and len(c['init']) == 1 and all(a in c['cls_attrs'] or a == c['init'][0][0] for i in c['invs'] for a in i['pred'][1:-1]):
+            out.append((f'construction raised {steps[0][4:]} although every attribute the invariants read exists', tag))
         return out
     if meta and (not meta['isinstance'] or not meta['prop']):
         out.append((f'isinstance / property of the decorated class differ from the plain class: {meta}', None))
